@@ -12,7 +12,11 @@ by the integers the model uses.
 
 A program is a dict
     {"kind": "tx"|"plain", "mode": "fast"|"locked"|"serializable", "timeout": <u, multiple of 20>,
-     "form": "ctx"|"dec", "ops": [op, ...]}
+     "form": "ctx"|"dec"|"obj", "ops": [op, ...]}
+    form: "ctx" = `async with cache.transaction(mode, timeout) as tx:` (a context object of its own), "dec" = a call of THE function decorated
+    with `@cache.transaction(mode, timeout)` (one per (mode, timeout), shared by all tasks), "obj" = `async with T as tx:` on THE context
+    object `T = cache.transaction(mode, timeout)` (one per (mode, timeout), created once and shared by all tasks: entered by several tasks
+    at once and, with ["nin","obj"], by one task nested in itself)
     op = ["set",k,v] | ["incr",k,n] | ["get",k] | ["del",k] | ["expire",k(,ttl seconds)] | ["setx",k,v,1|0] | ["sleep",ticks]
        | ["raise"] | ["raise","base"] | ["raise","falsy"] | ["raise","falsybase"] | ["nin",form] | ["nout"]
                                      (setx = cache.set(k, v, exist=True|False); its result is recorded as 1/0;
@@ -358,6 +362,15 @@ def execute(init: dict, programs: list[dict], schedule: list[int], snapshot=True
                 decorated[key] = call_in_tx
             return decorated[key]
 
+        # one context object per (mode, timeout): shared by every task that uses the "obj" form (`T = cache.transaction(...)` at module level)
+        shared: dict[tuple, Any] = {}
+
+        def obj_for(mode, timeout):
+            key = (mode, timeout)
+            if key not in shared:
+                shared[key] = cache.transaction(getattr(TransactionMode, MODES[mode]), timeout=timeout / U)
+            return shared[key]
+
         snaps = []
 
         def view():
@@ -443,6 +456,15 @@ def execute(init: dict, programs: list[dict], schedule: list[int], snapshot=True
                         await dec_for(mode, timeout)(lambda: run_ops(tree))
                     finally:
                         handles.pop()
+                elif form == "obj":
+                    async with obj_for(mode, timeout) as tx:
+                        handles.append(tx)
+                        try:
+                            await run_ops(tree)
+                        finally:
+                            handles.pop()
+                elif form != "ctx":
+                    raise SchedError(f"bad form {form}")
                 else:
                     async with cache.transaction(getattr(TransactionMode, MODES[mode]), timeout=timeout / U) as tx:
                         handles.append(tx)
